@@ -34,6 +34,8 @@ C16 line-protocol driver.
   hp <path>                      `handle_path <path> { respond x }` through the whole adapter → `ok <matcher> <strip>` | `rej`
   lnp <scheme> <port>            the site key [<scheme>://]a.test[:<port>] through the whole adapter: the port of
                                  the listener address                       → `ok <port>` | `rej`
+  nr <routes> <site>             named routes `&(name) { … }` and a site invoking them: no directive lost, every invoked
+                                 route emitted — oracle only                                  → `oracle-only`
   rename <n> <opts>              n sites on ports 8080+i and `servers :<port> { name … }` options (i:name,…): repeated
                                  adaptation and "no server lost", oracle only                 → `oracle-only`
   perm <text> <seed>             \
@@ -378,6 +380,16 @@ def handle : List String → String
     | _, _ => "bad-op"
   | ["adapt", t] => match hexField t with | some b => lexSummary b | none => "bad-op"
   | ["madapt", t] => match hexField t with | some b => lexSummary b | none => "bad-op"
+  | ["nr", routes, site] =>
+    let itemOK := fun (it : String) => it == "h" || it == "r" || it == "v" ||
+      (match it.splitOn ":" with | ["i", n] => n.length == 1 && n.toList.all (fun c => 'a' ≤ c && c ≤ 'z') | _ => false)
+    let routeOK := fun (r : String) =>
+      match r.splitOn "=" with
+      | [n, its] => n.length == 1 && n.toList.all (fun c => 'a' ≤ c && c ≤ 'z') && !its.isEmpty &&
+          (its.splitOn ",").all itemOK && (its.splitOn ",").length ≤ 5
+      | _ => false
+    if (routes == "." || ((routes.splitOn ";").all routeOK && (routes.splitOn ";").length ≤ 5)) &&
+        !site.isEmpty && (site.splitOn ",").all itemOK && (site.splitOn ",").length ≤ 5 then "oracle-only" else "bad-op"
   | ["rename", n, opts] =>
     match canonNat n with
     | some k =>
